@@ -304,7 +304,10 @@ def sweep(chk, screen, cap, positions=("same", "adjacent")):
     spread over the distinct reasons the screen gave."""
     from . import concretize
     from .corpus import enumerate_edits, _bucket
-    tr = [t for t in enumerate_edits(1, 1) if any(p in _bucket(t) for p in positions)]
+    def both_notebook_level(t):
+        eds = [h["edit"] for h in t.get("hist") or []]
+        return len(eds) == 2 and all(e.get("pos", e.get("from")) is None for e in eds)
+    tr = [t for t in enumerate_edits(1, 1) if any(p in _bucket(t) for p in positions) or both_notebook_level(t)]
     ctx = multiprocessing.get_context("fork")
     with ctx.Pool(common.NCPU) as pool:
         why = pool.map(_sweep_worker, [(t, screen) for t in tr], chunksize=64)
